@@ -489,6 +489,7 @@ func (e *Engine) VerifyFunc(fc *FuncContract) *FuncResult {
 	env := x.specEnv(&frame{fn: fn, fc: fc}, x.entry, nil)
 	env.fr = nil
 	env.pkg = fn.Pkg.Pkg
+	env.pol = 1
 	for _, r := range fc.Requires {
 		t, err := x.evalBool(r.Expr, env)
 		if err != nil {
@@ -529,51 +530,59 @@ func (e *Engine) VerifyFunc(fc *FuncContract) *FuncResult {
 	}
 	// reachability of the exit
 	vc.obls = append(vc.obls, &Obligation{Name: "cover/return", Kind: "cover", Goal: Not(out.pc), TraceLen: len(vc.trace), Pos: res.Pos, ExpectSat: true, Text: "some execution returns normally", Func: fc.Key(), Claimed: true})
-	post := map[string]Val{}
-	for k, v := range x.params {
-		post[k] = v
+	exitsList := []retEdge{{out, rv}}
+	if fc.Opts["nomerge"] != "" && len(x.topReturns) > 1 {
+		exitsList = x.topReturns
 	}
-	if len(fc.Results) > 0 {
-		if rv.Tuple != nil {
-			for i, n := range fc.Results {
-				post[n] = rv.Tuple[i]
-			}
-		} else {
-			post[fc.Results[0]] = rv
+	for _, ex := range exitsList {
+		out, rv := ex.st, ex.res
+		out.defers = nil
+		post := map[string]Val{}
+		for k, v := range x.params {
+			post[k] = v
 		}
-	}
-	penv := &SpecEnv{x: x, st: out, old: x.entry, vars: post, pkg: fn.Pkg.Pkg, inCall: true}
-	for i, en := range fc.Ensures {
-		t, err := x.evalBool(en.Expr, penv)
-		if err != nil {
-			res.Err = fmt.Errorf("%s:%d: ensures: %w", en.File, en.Line, err)
-			return res
-		}
-		name := fmt.Sprintf("ensures#%d", i)
-		if en.Tag != "" {
-			name = "ensures:" + en.Tag
-		}
-		vc.oblige("ensures", name, out.pc, t, e.fset.Position(fn.Pos()), en.Text)
-	}
-	// frame
-	if !fc.ModAll && !fc.NoFrame {
-		if out.epoch != 0 {
-			vc.oblige("frame", "frame/unknown-call", out.pc, TFalse, res.Pos, "a call with unknown effects happens but the contract has a modifies clause")
-		}
-		keys := sortedKeys(out.heap)
-		for _, k := range keys {
-			if k == "$alloc" {
-				continue
+		if len(fc.Results) > 0 {
+			if rv.Tuple != nil {
+				for i, n := range fc.Results {
+					post[n] = rv.Tuple[i]
+				}
+			} else {
+				post[fc.Results[0]] = rv
 			}
-			h := out.heap[k]
-			if h.S == "H0_"+sanitize(k) {
-				continue
+		}
+		penv := &SpecEnv{x: x, st: out, old: x.entry, vars: post, pkg: fn.Pkg.Pkg, inCall: true, pol: -1}
+		for i, en := range fc.Ensures {
+			t, err := x.evalBool(en.Expr, penv)
+			if err != nil {
+				res.Err = fmt.Errorf("%s:%d: ensures: %w", en.File, en.Line, err)
+				return res
 			}
-			f := x.frameFormula(k, h.Sort, h)
-			if f.B == 1 {
-				continue
+			name := fmt.Sprintf("ensures#%d", i)
+			if en.Tag != "" {
+				name = "ensures:" + en.Tag
 			}
-			vc.oblige("frame", "frame/"+k, out.pc, f, res.Pos, "only locations in the modifies clause change ("+k+")")
+			vc.oblige("ensures", name, out.pc, t, e.fset.Position(fn.Pos()), en.Text)
+		}
+		// frame
+		if !fc.ModAll && !fc.NoFrame {
+			if out.epoch != 0 {
+				vc.oblige("frame", "frame/unknown-call", out.pc, TFalse, res.Pos, "a call with unknown effects happens but the contract has a modifies clause")
+			}
+			keys := sortedKeys(out.heap)
+			for _, k := range keys {
+				if k == "$alloc" {
+					continue
+				}
+				h := out.heap[k]
+				if h.S == "H0_"+sanitize(k) {
+					continue
+				}
+				f := x.frameFormula(k, h.Sort, h)
+				if f.B == 1 {
+					continue
+				}
+				vc.oblige("frame", "frame/"+k, out.pc, f, res.Pos, "only locations in the modifies clause change ("+k+")")
+			}
 		}
 	}
 	return res
@@ -588,10 +597,29 @@ func (x *Exec) useLemmas(names []string) error {
 		if l.Mode != x.vc.ar.Mode {
 			return fmt.Errorf("lemma %s is %s-mode, function is %s-mode", n, l.Mode, x.vc.ar.Mode)
 		}
-		env := &SpecEnv{x: x, st: newState(), vars: map[string]Val{}, pkg: x.eng.pkgByPath(l.Pkg), inCall: true}
-		t, err := x.evalBool(l.Body.Expr, env)
+		env := &SpecEnv{x: x, st: newState(), vars: map[string]Val{}, pkg: x.eng.pkgByPath(l.Pkg), inCall: true, pol: 1}
+		if l.Induct != "" {
+			if l.Mode != ModeInt {
+				return fmt.Errorf("induction lemma %s must be int-mode", n)
+			}
+			env.vars[l.Induct] = Val{T: raw("k!ind", SInt)}
+		}
+		body := l.Body.Expr
+		if q, ok := body.(*EQuant); ok && l.Induct != "" && q.Forall {
+			// merge the induction variable into the lemma's own quantifier so that its triggers apply
+			delete(env.vars, l.Induct)
+			body = &EQuant{Forall: true, Vars: append([]QVar{{l.Induct, "mathint"}}, q.Vars...), Trig: q.Trig,
+				Body: &EBinary{"==>", &EBinary{">=", &EIdent{l.Induct}, &EInt{"0"}}, q.Body}}
+		}
+		t, err := x.evalBool(body, env)
 		if err != nil {
 			return fmt.Errorf("lemma %s: %w", n, err)
+		}
+		if l.Induct != "" {
+			if _, merged := body.(*EQuant); !merged || body == l.Body.Expr {
+				t = raw("(forall ((k!ind Int)) (=> (>= k!ind 0) "+t.S+"))", SBool)
+			}
+			x.vc.trusted["induction schema over the naturals applied by govc for lemma "+l.Name+" (base and step are obligations)"] = true
 		}
 		x.vc.assert(t)
 		if l.IsAxiom {
@@ -613,13 +641,41 @@ func (e *Engine) VerifyLemma(l *Lemma) *FuncResult {
 		res.Err = err
 		return res
 	}
+	vc.isLemma = true
+	pos := token.Position{Filename: l.Body.File, Line: l.Body.Line}
+	if l.Induct != "" {
+		// base: P(0); step: k >= 0 && P(k) ==> P(k+1)   (other variables are quantified inside P)
+		k := vc.freshConst("ind_"+l.Induct, SInt)
+		at := func(kt Term) (Term, error) {
+			env := &SpecEnv{x: x, st: newState(), vars: map[string]Val{l.Induct: {T: kt}}, pkg: e.pkgByPath(l.Pkg), inCall: true}
+			return x.evalBool(l.Body.Expr, env)
+		}
+		p0, err := at(intLit64(0))
+		if err != nil {
+			res.Err = fmt.Errorf("%s:%d: lemma %s: %w", l.Body.File, l.Body.Line, l.Name, err)
+			return res
+		}
+		vc.oblige("lemma", "lemma/"+l.Name+"/base", TTrue, p0, pos, l.Body.Text+"   ["+l.Induct+" = 0]")
+		pk, err := at(k)
+		if err != nil {
+			res.Err = err
+			return res
+		}
+		pk1, err := at(app(SInt, "+", k, intLit64(1)))
+		if err != nil {
+			res.Err = err
+			return res
+		}
+		vc.oblige("lemma", "lemma/"+l.Name+"/step", TTrue, Implies(And(app(SBool, ">=", k, intLit64(0)), pk), pk1), pos, l.Body.Text+"   ["+l.Induct+" -> "+l.Induct+"+1]")
+		return res
+	}
 	env := &SpecEnv{x: x, st: newState(), vars: map[string]Val{}, pkg: e.pkgByPath(l.Pkg), inCall: true}
 	t, err := x.evalBool(l.Body.Expr, env)
 	if err != nil {
 		res.Err = fmt.Errorf("%s:%d: lemma %s: %w", l.Body.File, l.Body.Line, l.Name, err)
 		return res
 	}
-	vc.oblige("lemma", "lemma/"+l.Name, TTrue, t, token.Position{Filename: l.Body.File, Line: l.Body.Line}, l.Body.Text)
+	vc.oblige("lemma", "lemma/"+l.Name, TTrue, t, pos, l.Body.Text)
 	return res
 }
 
@@ -639,7 +695,7 @@ func (e *Engine) smtFile(vc *VC, o *Obligation, withModel bool) string {
 	// reference sorts declared by the VC (Slice, ...), so they follow the built-in sorts.
 	nBuiltin := 0
 	for i, d := range vc.decls {
-		if strings.HasPrefix(d, "(declare-datatypes ((Slice") || strings.HasPrefix(d, "(declare-datatypes ((Iface") || strings.HasPrefix(d, "(declare-sort Str") || strings.HasPrefix(d, "(declare-sort Float") || strings.HasPrefix(d, "(declare-sort BSeq") || strings.HasPrefix(d, "(declare-fun str.") {
+		if strings.HasPrefix(d, "(declare-datatypes ((Slice") || strings.HasPrefix(d, "(declare-datatypes ((Iface") || strings.HasPrefix(d, "(declare-sort Str") || strings.HasPrefix(d, "(declare-sort Float") || strings.HasPrefix(d, "(declare-sort BSeq") || strings.HasPrefix(d, "(declare-fun gs.") {
 			nBuiltin = i + 1
 		} else {
 			break
@@ -650,6 +706,12 @@ func (e *Engine) smtFile(vc *VC, o *Obligation, withModel bool) string {
 		sb.WriteByte('\n')
 	}
 	for _, d := range e.smtDefs {
+		if d.Scope == "lemma" && !vc.isLemma {
+			continue
+		}
+		if d.Scope == "func" && vc.isLemma {
+			continue
+		}
 		if d.Mode == "all" || d.Mode == vc.ar.Mode.String() {
 			t := substSorts(d.Text, vc.ar.Mode)
 			if strings.HasPrefix(t, "(declare-ghost") {
